@@ -1,5 +1,5 @@
 SPECIFICATION TraceSpec
 CONSTRAINT Track
-INVARIANTS OnceEach DepsFirst BoundNoErr ChanBounded
+INVARIANTS OnceEach DepsFirst BoundAlways ChanBounded
 POSTCONDITION Post
 CHECK_DEADLOCK FALSE
